@@ -31,6 +31,12 @@ func evalC01(c *engine.Case) engine.Verdict {
 			v.Class("setup-error")
 			return v
 		}
+		if c.Note != "" {
+			w.Prime(c.Note)
+			if rep == 0 {
+				v.Class("primed-" + c.Note)
+			}
+		}
 		var o engine.Outcome
 		switch entry {
 		case "call":
@@ -99,13 +105,30 @@ func genC01(g engine.G) *engine.Case {
 	o.AllowOnce = true
 	o.FailP = 10
 	var sc *engine.Scenario
-	switch g.Int(0, 3) {
+	switch g.Int(0, 4) {
 	case 0:
 		sc = engine.GenUniform(g, o, true, true)
+	case 1:
+		// converter outputs may repeat a type under different subtypes
+		pal := engine.GenPalette(g, true, true)
+		pal.LooseOutputs = true
+		if len(pal.Subs) == 0 {
+			pal.Subs, pal.SubP = engine.AllSubs, 40
+		}
+		b := engine.NewBuilder(g, pal, o)
+		b.Sc.Target = engine.GenTarget(g, pal, 3, o)
+		for _, p := range b.Sc.Target.In {
+			b.Produce(p, g.Int(1, 3), 2)
+		}
+		b.Distract(1, 2)
+		sc = b.Sc
 	default:
 		sc = engine.GenDerivable(g, o, true, true, 2, 3)
 	}
 	c := &engine.Case{Sc: sc, Reps: 2}
+	if g.Pct(20) {
+		c.Note = engine.Pick(g, []string{"wrap", "fromsig"})
+	}
 	switch k := g.Int(0, 9); {
 	case k < 6:
 		c.Entry = "call"
